@@ -442,3 +442,38 @@ func H_C18_header() {
 	vAssert(s.rpos == n, "control header consumes exactly the bytes written")
 	vCover("C18 header")
 }
+
+// H_C18_FileResumeInfo_large: bitmaps beyond the 64 KiB step in which long fields are read (one byte past
+// one step, and past two steps). The bitmap is a constant filler with symbolic bytes at its ends and on
+// both sides of every step boundary.
+func H_C18_FileResumeInfo_large() {
+	bl := []int{65536, 65537, 131073}[vChoice("bmLenIdx", 3)]
+	bm := make([]byte, bl)
+	for i := range bm {
+		bm[i] = 0xA5
+	}
+	edge := vBytes("bitmapEdge", 8)
+	bm[0], bm[1], bm[65534], bm[65535], bm[bl-1] = edge[0], edge[1], edge[2], edge[3], edge[4]
+	if bl > 65536 {
+		bm[65536] = edge[5]
+	}
+	if bl > 131072 {
+		bm[131071], bm[131072] = edge[6], edge[7]
+	}
+	msg := FileResumeInfo{FileID: "id", StreamID: vU64("streamID"), TotalChunks: vU32("total"), Bitmap: bm, LastVerifiedChunk: vU32("lvc"), LastVerifiedHash: vU64("lvh")}
+	s := &vMemStream{}
+	err := writeFileResumeInfo(s, msg)
+	vAssert(err == nil, "writeFileResumeInfo succeeds")
+	n := len(s.buf)
+	typ, got, err := readControlMessage(s)
+	vAssert(err == nil, "FileResumeInfo decodes without error")
+	vAssert(typ == controlTypeFileResumeInfo, "FileResumeInfo type byte")
+	ri, ok := got.(FileResumeInfo)
+	vAssert(ok, "FileResumeInfo dynamic type")
+	vAssert(len(ri.Bitmap) == bl, "FileResumeInfo.Bitmap length")
+	vAssert(vBytesEq(ri.Bitmap, msg.Bitmap), "FileResumeInfo.Bitmap")
+	vAssert(ri.LastVerifiedChunk == msg.LastVerifiedChunk, "FileResumeInfo.LastVerifiedChunk")
+	vAssert(ri.LastVerifiedHash == msg.LastVerifiedHash, "FileResumeInfo.LastVerifiedHash")
+	vAssert(s.rpos == n, "FileResumeInfo consumes exactly the bytes written")
+	vCover("C18 FileResumeInfo large")
+}
